@@ -60,7 +60,8 @@ CONSTANTS
     Addrs,          \* every address the menus mention
     Modes,          \* subset of {"strict", "audit"}
     MaxSteps,       \* length of generated behaviours
-    ModelDeviations \* TRUE: also generate the outcomes D1 / D2 the code was read to produce
+    ModelDeviations,\* TRUE: also generate the outcomes D1 / D2 the code was read to produce
+    Follow          \* subset of {"D1", "D2"}: the deviations behaviours are continued through
 
 VARIABLES st, hist
 
@@ -170,8 +171,20 @@ StepRec(r, o) == [req |-> r, dev |-> o.dev,
 Do(r, o) == /\ st' = o.st
             /\ hist' = Append(hist, StepRec(r, o))
 
-Next == /\ Len(hist) < MaxSteps
-        /\ \E r \in Reqs : \E o \in Outcomes(st, r) : Do(r, o)
+\* Behaviours are only continued along the outcomes the implementation is known to follow (Follow =
+\* the deviations it exhibits, calibrated by a probe before the run); the other outcome of a
+\* two-outcome request is still generated, as the last step of a behaviour, so that a change of the
+\* implementation is noticed.
+\* (written with IF, not \/: inside an action TLC would explore both disjuncts and duplicate successors)
+OnPath(s) == IF s.alt.dev = "same" THEN TRUE
+             ELSE LET d == IF s.dev # "none" THEN s.dev ELSE s.alt.dev
+                  IN  IF d \in Follow THEN s.dev # "none" ELSE s.dev = "none"
+
+\* one action per request of the menus (TLC's simulator picks an action, then one of its outcomes)
+Step(r) == /\ Len(hist) < MaxSteps
+           /\ IF hist = << >> THEN TRUE ELSE OnPath(hist[Len(hist)])
+           /\ \E o \in Outcomes(st, r) : Do(r, o)
+Next == \E r \in Reqs : Step(r)
 
 vars == <<st, hist>>
 Spec == Init /\ [][Next]_vars
@@ -191,14 +204,17 @@ View == <<st, Len(hist), PathClass(hist), LastClass(hist)>>
 
 Lit(o) == o.dev = "none"
 
+\* P holds for every outcome of every request of the menus in the current state
+ForAllOutcomes(P(_, _)) == \A r \in Reqs : \A o \in Outcomes(st, r) : P(r, o)
+
 \* a rejected request has no effect whatsoever
-NoEffectOnReject == \A r \in Reqs : \A o \in Outcomes(st, r) : ~o.ok => o.st = st
+P_NoEffectOnReject(r, o) == ~o.ok => o.st = st
 
 \* an accepted request appends exactly one log, a transaction exactly one transaction
-OneLogPerWrite == \A r \in Reqs : \A o \in Outcomes(st, r) : o.ok =>
-                     /\ o.st.nlogs = st.nlogs + 1
-                     /\ o.st.ntx = st.ntx + (IF r.k = "tx" THEN 1 ELSE 0)
-                     /\ o.st.mode = st.mode
+P_OneLogPerWrite(r, o) == o.ok =>
+    /\ o.st.nlogs = st.nlogs + 1
+    /\ o.st.ntx = st.ntx + (IF r.k = "tx" THEN 1 ELSE 0)
+    /\ o.st.mode = st.mode
 
 \* what the request says about account a / key k
 ReqVal(r, a, k) == IF r.k = "tx" THEN ReqKV(r.ameta, a)[k]
@@ -206,7 +222,7 @@ ReqVal(r, a, k) == IF r.k = "tx" THEN ReqKV(r.ameta, a)[k]
 
 \* defaults only at creation: an existing value changes only to the value the request gives; a new
 \* account holds the request's value, else the chart default of its node under the named version
-DefaultsOnlyAtCreation == \A r \in Reqs : \A o \in Outcomes(st, r) : o.ok =>
+P_DefaultsOnlyAtCreation(r, o) == o.ok =>
     \A a \in o.st.ex : \A k \in AllKeys :
         LET new == o.st.md[a][k]
             rv  == ReqVal(r, a, k)
@@ -214,38 +230,51 @@ DefaultsOnlyAtCreation == \A r \in Reqs : \A o \in Outcomes(st, r) : o.ok =>
             THEN new = (IF rv # "_" THEN rv ELSE st.md[a][k])
             ELSE LET ver == IF r.k = "schema" THEN "" ELSE Resolve(st, r.ver, Lit(o)).ver
                  IN  new = (IF rv # "_" THEN rv ELSE Defaults(st, ver, a)[k])
-NoAccountDeleted == \A r \in Reqs : \A o \in Outcomes(st, r) : st.ex \subseteq o.st.ex
+P_NoAccountDeleted(r, o) == st.ex \subseteq o.st.ex
 
 \* strict mode: on a ledger with schemas a write must name an existing version
-StrictRequiresVersion == st.mode = "strict" /\ AnySchema(st) =>
-    \A r \in TxMenu \cup MetaMenu : \A o \in Outcomes(st, r) :
-        /\ r.ver = "" => ~o.ok /\ o.err = "schema_not_specified"
-        /\ o.ok => Known(st, r.ver)
+P_StrictRequiresVersion(r, o) == (st.mode = "strict" /\ AnySchema(st) /\ r.k # "schema") =>
+    /\ r.ver = "" => ~o.ok /\ o.err = "schema_not_specified"
+    /\ o.ok => Known(st, r.ver)
 \* strict mode: accepted transactions use accounts the chart accepts and a template when required
-StrictChartEnforced == st.mode = "strict" =>
-    \A r \in TxMenu : \A o \in Outcomes(st, r) : (o.ok /\ r.ver # "") =>
-        LET ps == IF r.tpl # "" THEN TplDefs[r.tpl] ELSE r.post
-        IN  /\ \A a \in PostingAccounts(ps) : Acc(st, r.ver, a)
-            /\ st.sch[r.ver].tpls => r.tpl \in DOMAIN TplDefs
+P_StrictChartEnforced(r, o) == (st.mode = "strict" /\ r.k = "tx" /\ o.ok /\ r.ver # "") =>
+    LET ps == IF r.tpl # "" THEN TplDefs[r.tpl] ELSE r.post
+    IN  /\ \A a \in PostingAccounts(ps) : Acc(st, r.ver, a)
+        /\ st.sch[r.ver].tpls => r.tpl \in DOMAIN TplDefs
 \* strict mode never needs the two-outcome escape
-StrictHasNoDeviation == st.mode = "strict" => \A r \in Reqs : \A o \in Outcomes(st, r) : Lit(o) /\ o.alt.dev = "same"
+P_StrictHasNoDeviation(r, o) == st.mode = "strict" => (Lit(o) /\ o.alt.dev = "same")
 
 \* a request that cannot be executed at all, whatever the mode
 Unexecutable(s, r) ==
     \/ r.k = "schema" /\ Known(s, r.v)
     \/ r.k = "tx" /\ r.tpl # "" /\ ~(Known(s, r.ver) /\ s.sch[r.ver].tpls /\ r.tpl \in DOMAIN TplDefs)
 \* audit mode accepts everything that can be executed (literal outcomes)
-AuditAcceptsAll == st.mode = "audit" =>
-    \A r \in Reqs : \A o \in Outcomes(st, r) : Lit(o) => (o.ok <=> ~Unexecutable(st, r))
+P_AuditAcceptsAll(r, o) == (st.mode = "audit" /\ Lit(o)) => (o.ok <=> ~Unexecutable(st, r))
 \* the same statement about ALL outcomes: expected to be VIOLATED when ModelDeviations = TRUE (D1, D2);
 \* used as the negative control of the theorem and as the design-level record of the deviations
-AuditAcceptsAll_AsRead == st.mode = "audit" =>
-    \A r \in Reqs : \A o \in Outcomes(st, r) : (o.ok <=> ~Unexecutable(st, r))
+P_AuditAcceptsAll_AsRead(r, o) == st.mode = "audit" => (o.ok <=> ~Unexecutable(st, r))
 \* strict and audit agree on everything strict accepts (audit is a relaxation)
-AuditRelaxesStrict == \A r \in Reqs :
+P_AuditRelaxesStrict(r, o) ==
     LET so == Outcome([st EXCEPT !.mode = "strict"], r, TRUE)
         ao == Outcome([st EXCEPT !.mode = "audit"], r, TRUE)
     IN  so.ok => (ao.ok /\ ao.st = [so.st EXCEPT !.mode = "audit"])
+
+NoEffectOnReject       == ForAllOutcomes(P_NoEffectOnReject)
+OneLogPerWrite         == ForAllOutcomes(P_OneLogPerWrite)
+DefaultsOnlyAtCreation == ForAllOutcomes(P_DefaultsOnlyAtCreation)
+NoAccountDeleted       == ForAllOutcomes(P_NoAccountDeleted)
+StrictRequiresVersion  == ForAllOutcomes(P_StrictRequiresVersion)
+StrictChartEnforced    == ForAllOutcomes(P_StrictChartEnforced)
+StrictHasNoDeviation   == ForAllOutcomes(P_StrictHasNoDeviation)
+AuditAcceptsAll        == ForAllOutcomes(P_AuditAcceptsAll)
+AuditAcceptsAll_AsRead == ForAllOutcomes(P_AuditAcceptsAll_AsRead)
+AuditRelaxesStrict     == ForAllOutcomes(P_AuditRelaxesStrict)
+
+\* all theorems in one pass over the outcomes (used by the simulation configurations)
+P_All(r, o) == /\ P_NoEffectOnReject(r, o) /\ P_OneLogPerWrite(r, o) /\ P_DefaultsOnlyAtCreation(r, o)
+               /\ P_NoAccountDeleted(r, o) /\ P_StrictRequiresVersion(r, o) /\ P_StrictChartEnforced(r, o)
+               /\ P_StrictHasNoDeviation(r, o) /\ P_AuditAcceptsAll(r, o) /\ P_AuditRelaxesStrict(r, o)
+AllTheorems == ForAllOutcomes(P_All)
 
 TypeOK == /\ st.mode \in Modes
           /\ st.ex \subseteq Addrs
